@@ -23,7 +23,7 @@ RULE = ("(a) 'pairs': arithmetic sub-domain rows in 1..20000 x bands n in 1..64 
         "optionally compressed by fits_tools.compress; every band i of n loaded. (c) 'invalid': bad band specs. "
         "Non-trivial = n >= 2 and rows not a multiple of n; distinct = distinct (rows,n[,layout]).")
 ASSUMPTIONS = [
-    "inputs are float32/float64 images (load_image_band multiplies raw data by BSCALE in place)",
+    "images of BITPIX -32, -64, 16 and 32 with optional BSCALE and BZERO cards; band values are compared with BZERO + BSCALE * stored (1e-6 for float32 data, 1e-12 otherwise)",
     "for compressed inputs only the value clause is asserted (the statement's parenthesis covers values); the band "
     "header of a compressed file is evaluated and reported under a label, not judged",
 ]
@@ -165,7 +165,9 @@ content_case = st.fixed_dictionaries({
     "ndim": st.sampled_from([2, 2, 3, 4]),
     "planes": st.integers(1, 3), "cube_index": st.integers(0, 2),
     "bscale": st.sampled_from([None, None, 1.0, 0.5, 3.0]),
-    "dtype": st.sampled_from(["f4", "f8"]),
+    # FITS scaling is physical = BZERO + BSCALE * stored; integer BITPIX is the usual reason for it
+    "bzero": st.sampled_from([None, None, None, 0.0, 2.0, -100.0]),
+    "dtype": st.sampled_from(["f4", "f8", "f4", "f8", "i2", "i4"]),
     "compress": st.sampled_from([0, 0, 0, 2, 3, 4, 7]),
     "proj": st.sampled_from(refs.ZWCS.PROJ),
     "crval": st.tuples(st.floats(0, 359.99), st.floats(-80, 80)),
@@ -180,7 +182,10 @@ def build_content(c, d):
     rows, cols = c["rows"], c["cols"]
     rng = np.random.default_rng(c["seed"])
     planes = c["planes"] if c["ndim"] > 2 else 1
-    cube = rng.normal(size=(planes, rows, cols)).astype(c["dtype"])
+    if c["dtype"].startswith("i"):
+        cube = rng.integers(-3000, 3000, size=(planes, rows, cols)).astype(c["dtype"])
+    else:
+        cube = rng.normal(size=(planes, rows, cols)).astype(c["dtype"])
     ci = min(c["cube_index"], planes - 1)
     w = refs.ZWCS(c["proj"], c["crval"][0], c["crval"][1], c["crpix"][0], c["crpix"][1],
                   -c["scale"] / 3600.0, c["scale"] / 3600.0)
@@ -200,18 +205,24 @@ def build_content(c, d):
     else:
         # the image lives in extension 1, behind a primary HDU holding unrelated data of another shape
         fits.HDUList([fits.PrimaryHDU(np.zeros((3, 5), dtype=np.float32)), hdu]).writeto(path, overwrite=True)
-    if c["bscale"] is not None:
-        # astropy drops BSCALE from float HDUs on write: patch the card into the raw file
+    bzero = c.get("bzero")
+    if c["bscale"] is not None or bzero is not None:
+        # astropy drops the scaling cards from float HDUs on write: patch them into the raw file
         with fits.open(path, mode="update", do_not_scale_image_data=True) as hl:
-            hl[ext].header["BSCALE"] = c["bscale"]
-    full = cube[ci].astype(np.float64) * (c["bscale"] if c["bscale"] is not None else 1.0)
-    return path, full.astype(c["dtype"]), w, ci
+            if c["bscale"] is not None:
+                hl[ext].header["BSCALE"] = c["bscale"]
+            if bzero is not None:
+                hl[ext].header["BZERO"] = bzero
+    full = cube[ci].astype(np.float64) * (c["bscale"] if c["bscale"] is not None else 1.0) + (bzero or 0.0)
+    # the physical values, at the precision the stored type can carry
+    return path, full.astype(c["dtype"] if not c["dtype"].startswith("i") else "f8"), w, ci
 
 
 def check_content(c):
     res = Res()
     if c["compress"]:
-        c = dict(c, ndim=2, bscale=None, rows=max(2, c["rows"]), cols=max(2, c["cols"]), ext=0)
+        c = dict(c, ndim=2, bscale=None, bzero=None, dtype=c["dtype"].replace("i2", "f4").replace("i4", "f8"),
+                 rows=max(2, c["rows"]), cols=max(2, c["cols"]), ext=0)
     d = workdir("c20c_")
     try:
         path, full, w, ci = build_content(c, d)
@@ -229,6 +240,10 @@ def check_content(c):
             res.label("ndim%d" % c["ndim"])
         if c["bscale"] is not None:
             res.label("bscale")
+        if c.get("bzero") is not None:
+            res.label("bzero")
+        if c["dtype"].startswith("i"):
+            res.label("integer-bitpix")
         if c.get("ext"):
             res.label("hdu_index-1")
         nxt = 0
@@ -240,7 +255,9 @@ def check_content(c):
                 res.bad("band-shape", "band %d/%d: shape %r" % (i, n, data.shape), compressed=compressed)
                 return res
             # locate the band from its values: it must be rows [nxt, nxt+k)
-            if nxt + k > rows or not np.array_equal(data, full[nxt:nxt + k], equal_nan=True):
+            if nxt + k > rows or not np.allclose(np.asarray(data, dtype=np.float64), np.asarray(full[nxt:nxt + k], dtype=np.float64),
+                                                 rtol=1e-6 if c["dtype"] == "f4" else 1e-12, atol=1e-6 if c["dtype"] == "f4" else 1e-12,
+                                                 equal_nan=True):
                 res.bad("band-values", "band %d/%d: %d rows do not equal image rows %d..%d" % (i, n, k, nxt, nxt + k),
                         compressed=compressed)
                 return res
